@@ -1,6 +1,10 @@
 """C13 — builders refuse inconsistent constructions (model: coq/model/BuilderErr.v + Tracked.v,
 spec: coq/spec/BuilderErrS.v).
 
+Builders are context managers: calls are observed plainly AND from inside real `with` blocks (conditional
+sessions: statements ["with", contexts, body]; other kinds: case["ctx"] selects enclosing builders) - what is
+recorded is the exception that reached the caller of the outermost block.
+
 A case describes a builder program: a well-formed prefix (random nesting of Dfg / Cfg blocks /
 Conditional cases / TailLoop / functions in a module) followed by ONE call that is either consistent or
 carries one inconsistency of the property's classes.  observe() interprets the description on the real
@@ -68,6 +72,23 @@ def catch(f):
         return exc_class(e)
 
 
+def in_ctx(cms, f):
+    """f() inside real `with` statements of the context managers cms (outermost first).  What leaves the
+    outermost block is what the caller sees: an exception a context swallowed is gone."""
+    if not cms:
+        return f()
+    with cms[0]:
+        return in_ctx(cms[1:], f)
+
+
+def pick_ctx(case, avail):
+    """The builders (context managers) around the final call: bit j of case["ctx"] selects the j-th enclosing
+    builder counted from the innermost (avail is outermost first); order of nesting is kept."""
+    m = case.get("ctx", 0)
+    k = len(avail)
+    return [cm for j, cm in enumerate(avail) if (m >> (k - 1 - j)) & 1]
+
+
 def tid(T, name):
     """A type as 16 * (class of the type under Python's ==, the comparison the builders use) + spelling:
     rows that are == but spelled differently (Unit / Tuple(), Bool / Sum([[], []])) are recognisable."""
@@ -95,24 +116,26 @@ class Tree:
         self.conds = {}          # builder index of a case -> Conditional node
         self.closed = set()      # builder indices whose outputs were set by a "close" step
         self.exited = set()      # indices in cfgs whose exit type was established by an "exitcfg" step
+        self.chain = []          # per builder: the enclosing context managers, outermost first, itself last
         self.root_kind = root
         if root == "dfg":
             d = Dfg(tys.Qubit)
             self.hugr = d.hugr
-            self._add_builder(d, "dfg")
+            self._add_builder(d, "dfg", [])
         elif root == "cfg":
             c = Cfg(tys.Qubit)
             self.hugr = c.hugr
             self.cfgs.append((c, 0))
-            self._add_builder(c.add_entry(), "block")
-            self._add_builder(c.add_block(tys.Qubit), "block")
+            self._add_builder(c.add_entry(), "block", [c])
+            self._add_builder(c.add_block(tys.Qubit), "block", [c])
         else:
             self.module = Module()
             self.hugr = self.module.hugr
             self.step(["func"])
 
-    def _add_builder(self, b, kind):
+    def _add_builder(self, b, kind, outer):
         self.builders.append((b, kind))
+        self.chain.append(list(outer) + [b])
         self.sources.append((b.input_node, 0, "KValue"))
 
     def step(self, s):
@@ -120,7 +143,7 @@ class Tree:
         k = s[0]
         if k == "func":
             f = self.module.define_function("f%d" % len(self.builders), [tys.Qubit], [tys.Qubit])
-            self._add_builder(f, "func")
+            self._add_builder(f, "func", [])
             self.sources.append((f.parent_node, 0, "KFunction"))
             return
         if k == "exitcfg":
@@ -132,22 +155,23 @@ class Tree:
         if k == "close":
             self._close(bi, b, bkind, q)
         elif k == "nested":
-            self._add_builder(b.add_nested(q), "dfg")
+            self._add_builder(b.add_nested(q), "dfg", self.chain[bi])
         elif k == "cfg":
             c = b.add_cfg(q)
             self.cfgs.append((c, len(self.builders)))
-            self._add_builder(c.add_entry(), "block")
+            self._add_builder(c.add_entry(), "block", self.chain[bi] + [c])
             for _ in range(s[2]):
-                self._add_builder(c.add_block(tys.Qubit), "block")
+                self._add_builder(c.add_block(tys.Qubit), "block", self.chain[bi] + [c])
         elif k == "cond":
             rows = [[tys.Bool] * (i % 2) for i in range(s[2])]
             sw = b.add_op(custom(0, [tys.Sum(rows)]))
             c = b.add_conditional(sw, q)
             for i in range(s[2]):
                 self.conds[len(self.builders)] = c.parent_node
-                self._add_builder(c.add_case(i), "case")
+                # every case of c is requested here: later, `with c:` has nothing to object to
+                self._add_builder(c.add_case(i), "case", self.chain[bi] + [c])
         elif k == "loop":
-            self._add_builder(b.add_tail_loop([], [q]), "loop")
+            self._add_builder(b.add_tail_loop([], [q]), "loop", self.chain[bi])
         elif k == "op":
             n = b.add_op(custom(1, [tys.Qubit] * s[2]), q)
             for j in range(s[2]):
@@ -270,12 +294,13 @@ def obs_wire(case):
     # Dfg.set_outputs is an entry point only while the builder's outputs are not set yet (setting the
     # outputs of one graph twice is outside the property)
     via = case["via"] if tkind == "dfg" and ti not in t.closed else "add_op"
+    cms = pick_ctx(case, t.chain[ti])                     # the call sits inside `with` blocks of these builders
     if via == "set_outputs":
-        exc = catch(lambda: tb.set_outputs(node.out(off)))
+        exc = catch(lambda: in_ctx(cms, lambda: tb.set_outputs(node.out(off))))
         tgt = tb.output_node.idx
     else:
         op = custom(1, [])
-        exc = catch(lambda: tb.add_op(op, node.out(off)))
+        exc = catch(lambda: in_ctx(cms, lambda: tb.add_op(op, node.out(off))))
         new = [n for n in h if n.idx not in before]
         if len(new) > 1:
             new = [n for n in new if h[n].op is op]
@@ -300,7 +325,8 @@ def obs_wire(case):
         diag["accepted wire: the new state-order edges are the model's (source -> sibling ancestor)"] = orders == want
     return {"exc": exc, "pt": pt, "src": src_c, "tgt": tgt_c, "k": pk, "blk": blk, "sib": sib,
             "order": orders, "inter": exc is None and sib and a != tgt_c, "recorded": tgt != "virtual", "diag": diag,
-            "stag": stag, "tkind": tkind, "via": via, "depth_tgt": depth(pt, tgt_c), "depth_src": depth(pt, src_c)}
+            "stag": stag, "tkind": tkind, "via": via, "depth_tgt": depth(pt, tgt_c), "depth_src": depth(pt, src_c),
+            "nctx": len(cms), "ctx_kinds": [type(c).__name__ for c in cms]}
 
 
 def depth(pt, n):
@@ -339,17 +365,27 @@ def private_built_flags(cond):
         return None
 
 
+def gstmt(ctx_kinds, body_lit):
+    return "(mkStmt %s %s)" % (glist(ctx_kinds), glist(body_lit))
+
+
 def obs_cond(case, T):
     """A session on one Conditional.  What is recorded is only what the public calls do: add_case(i),
     Case.set_outputs, __exit__ (leaving the context).  At most one set_outputs per case builder (setting
-    the outputs of one graph twice is outside the property).  After the session every index 0..n-1 is
-    probed with add_case: it is refused iff that case was handed out before - the public view of which
-    cases count as built (a refused call must not have marked anything)."""
+    the outputs of one graph twice is outside the property).  A session is a list of STATEMENTS, each caught by
+    the caller: a plain call, or ["with", contexts, body] = the calls of `body` in sequence, NOT caught one by
+    one, inside real `with` blocks (contexts outermost first: "cond" = the Conditional, "outer" = the Dfg it is
+    nested in, ["case", k] = a case builder handed out before); body call ["with_case", i, row] is the idiom
+    `with cond.add_case(i) as c: c.set_outputs(row)`.  Per statement the exception that reached the caller is
+    recorded, and the calls of the body that actually ran (up to the one that raised).
+    After the session every index 0..n-1 is probed with add_case: it is refused iff that case was handed out
+    before - the public view of which cases count as built (a refused call must not have marked anything)."""
     from hugr import tys
     from hugr.build.cond_loop import Conditional
     variants = [[mk_type(t) for t in r] for r in case["variants"]]
     others = [mk_type(t) for t in case["others"]]
     sum_ty = tys.Sum(variants)
+    inner = None
     if case["depth"] < 0:
         cond = Conditional(sum_ty, others)
     else:
@@ -360,80 +396,149 @@ def obs_cond(case, T):
     outs_set = set()
     res = []
     ops_lit = []
-    for o in case["ops"]:
+    blocks = []                 # statistics: (context kinds, exception) of the `with` statements
+
+    def call(o, lit):
+        """One call of a body, not caught; lit gets the calls that were actually made."""
         if o[0] == "add_case":
-            def f(o=o):
-                cases.append(cond.add_case(o[1]))
-            res.append(catch(f))
-            ops_lit.append(gapp("OAddCase", gZ(o[1])))
+            lit.append(gapp("OAddCase", gZ(o[1])))
+            cases.append(cond.add_case(o[1]))
         elif o[0] == "set_outputs":
             if not cases:
-                continue
+                return
             ci = o[1] % len(cases)
             if ci in outs_set:
-                continue
+                return
             outs_set.add(ci)
             c = cases[ci]
-            row = o[2]
-            res.append(catch(lambda: c.set_outputs(*make_row(c, row))))
-            ops_lit.append(gapp("OSetOutputs", glist(gN(tid(T, t)) for t in row)))
+            lit.append(gapp("OSetOutputs", glist(gN(tid(T, t)) for t in o[2])))
+            c.set_outputs(*make_row(c, o[2]))
+        elif o[0] == "with_case":
+            lit.append(gapp("OAddCase", gZ(o[1])))
+            with cond.add_case(o[1]) as c:
+                cases.append(c)
+                outs_set.add(len(cases) - 1)
+                lit.append(gapp("OSetOutputs", glist(gN(tid(T, t)) for t in o[2])))
+                c.set_outputs(*make_row(c, o[2]))
         else:
-            res.append(catch(lambda: cond.__exit__(None, None, None)))
-            ops_lit.append("OExit")
+            lit.append("OExit")
+            cond.__exit__(None, None, None)
+
+    def resolve(names):
+        cms, kinds = [], []
+        for nm in names:
+            if nm == "cond":
+                cms.append(cond); kinds.append("CxCond")
+            elif nm == "outer":
+                if inner is not None:
+                    cms.append(inner); kinds.append("CxPlain")
+            elif cases:                                          # ["case", k]
+                cms.append(cases[nm[1] % len(cases)]); kinds.append("CxPlain")
+        return cms, kinds
+
+    for o in case["ops"]:
+        names, body = (o[1], o[2]) if o[0] == "with" else ([], [o])
+        cms, kinds = resolve(names)
+        lit = []
+
+        def run(body=body, lit=lit):
+            for b in body:
+                call(b, lit)
+        exc = catch(lambda: in_ctx(cms, run))
+        if not cms and not lit:
+            continue                                             # a skipped plain call: nothing happened
+        res.append(exc)
+        ops_lit.append(gstmt(kinds, lit))
+        if o[0] == "with":
+            blocks.append(("+".join(kinds) or "none", exc))
     private = private_built_flags(cond)
     session = len(res)
     for i in range(len(variants)):
         res.append(catch(lambda: cond.add_case(i)))
-        ops_lit.append(gapp("OAddCase", gZ(i)))
+        ops_lit.append(gstmt([], [gapp("OAddCase", gZ(i))]))
     built = [e is not None for e in res[session:]]
     diag = {}
     if private is not None:
         diag["conditional: private built flags equal the publicly probed ones"] = private == built
-    return {"res": res, "ops_lit": ops_lit, "built": built, "n": len(variants), "session": session, "diag": diag}
+    return {"res": res, "ops_lit": ops_lit, "built": built, "n": len(variants), "session": session, "diag": diag,
+            "blocks": blocks}
 
 
 def obs_ifelse(case, T):
     """add_if = add_conditional + add_case(1); add_else = add_case(0) on the same conditional.  The
     Conditional behind an If is not reachable through the public API, so its context cannot be left here
-    ("exit" steps are skipped; kind "cond" exercises __exit__).  Final probe: one more add_else."""
+    ("exit" steps are skipped; kind "cond" exercises __exit__).  Statements as in obs_cond; the contexts are
+    "if" = the If builder, "outer" = the Dfg around it, ["case", k] = the If / an Else handed out before (all of
+    them builders whose __exit__ checks nothing); body call ["with_else", row] = `with if_.add_else() as e:
+    e.set_outputs(row)`.  Final probe: one more add_else."""
     from hugr import tys
     _, inner, _ = nest(case["depth"])
     sw = inner.add_op(custom(0, [tys.Bool], "mk"))
     if_ = inner.add_if(sw.out(0), inner.inputs()[0])
-    res, ops_lit = [None], [gapp("OAddCase", gZ(1))]
+    res, ops_lit = [None], [gstmt([], [gapp("OAddCase", gZ(1))])]
     holders = [if_]
     outs_set = set()
-    for o in case["ops"]:
+    blocks = []
+
+    def call(o, lit):
         if o[0] == "add_else":
-            def f():
-                holders.append(if_.add_else())
-            res.append(catch(f))
-            ops_lit.append(gapp("OAddCase", gZ(0)))
+            lit.append(gapp("OAddCase", gZ(0)))
+            holders.append(if_.add_else())
         elif o[0] == "set_outputs":
             ci = o[1] % len(holders)
             if ci in outs_set:
-                continue
+                return
             outs_set.add(ci)
             c = holders[ci]
-            row = o[2]
-            res.append(catch(lambda: c.set_outputs(*make_row(c, row))))
-            ops_lit.append(gapp("OSetOutputs", glist(gN(tid(T, t)) for t in row)))
+            lit.append(gapp("OSetOutputs", glist(gN(tid(T, t)) for t in o[2])))
+            c.set_outputs(*make_row(c, o[2]))
+        elif o[0] == "with_else":
+            lit.append(gapp("OAddCase", gZ(0)))
+            with if_.add_else() as c:
+                holders.append(c)
+                outs_set.add(len(holders) - 1)
+                lit.append(gapp("OSetOutputs", glist(gN(tid(T, t)) for t in o[1])))
+                c.set_outputs(*make_row(c, o[1]))
+
+    def resolve(names):
+        cms = []
+        for nm in names:
+            cms.append(if_ if nm == "if" else inner if nm == "outer" else holders[nm[1] % len(holders)])
+        return cms, ["CxPlain"] * len(cms)
+
+    for o in case["ops"]:
+        names, body = (o[1], o[2]) if o[0] == "with" else ([], [o])
+        cms, kinds = resolve(names)
+        lit = []
+
+        def run(body=body, lit=lit):
+            for b in body:
+                call(b, lit)
+        exc = catch(lambda: in_ctx(cms, run))
+        if not cms and not lit:
+            continue                                             # a skipped plain call: nothing happened
+        res.append(exc)
+        ops_lit.append(gstmt(kinds, lit))
+        if o[0] == "with":
+            blocks.append(("+".join(kinds) or "none", exc))
     session = len(res)
     res.append(catch(lambda: if_.add_else()))
-    ops_lit.append(gapp("OAddCase", gZ(0)))
+    ops_lit.append(gstmt([], [gapp("OAddCase", gZ(0))]))
     return {"res": res, "ops_lit": ops_lit, "built": [res[-1] is not None, True], "n": 2, "session": session,
-            "diag": {}}
+            "diag": {}, "blocks": blocks}
 
 
 def obs_exit(case, T):
     from hugr import tys
     from hugr.build.cfg import Cfg
+    chain = []
     if case["depth"] < 0:
         cfg = Cfg(tys.Qubit)
     else:
-        _, inner, _ = nest(case["depth"])
+        _, inner, chain = nest(case["depth"])
         cfg = inner.add_cfg(inner.inputs()[0])
     res, rows = [], []
+    nctx = 0
     for i, b in enumerate(case["blocks"]):
         blk = cfg.add_entry() if i == 0 else cfg.add_block(tys.Qubit)
         variants = [[mk_type(t) for t in r] for r in b["variants"]]
@@ -441,12 +546,14 @@ def obs_exit(case, T):
         n = blk.add_op(custom(0, [tys.Sum(variants)] + others, "mk"))
         blk.set_block_outputs(*[n.out(j) for j in range(1 + len(others))])
         src = blk.parent_node.out(b["branch"])
+        cms = pick_ctx(case, chain + [blk, cfg])          # bit 0: `with cfg:`, bit 1: the block, then the Dfgs around
+        nctx = len(cms)
         if b["via"] == "branch":
-            res.append(catch(lambda: cfg.branch(src, cfg.exit)))
+            res.append(catch(lambda: in_ctx(cms, lambda: cfg.branch(src, cfg.exit))))
         else:
-            res.append(catch(lambda: cfg.branch_exit(src)))
+            res.append(catch(lambda: in_ctx(cms, lambda: cfg.branch_exit(src))))
         rows.append([tid(T, t) for t in b["variants"][b["branch"]] + b["others"]])
-    return {"res": res, "rows": rows}
+    return {"res": res, "rows": rows, "nctx": nctx}
 
 
 def obs_fnout(case, T):
@@ -454,19 +561,21 @@ def obs_fnout(case, T):
     from hugr.build.dfg import Function
     from hugr.build.function import Module
     declared = None if case["declared"] is None else [mk_type(t) for t in case["declared"]]
+    chain = []
     if case["how"] == "define":
         m = Module()
         f = m.define_function("f", [tys.Qubit], declared)
     elif case["how"] == "nested_define":
-        _, inner, _ = nest(case["depth"])
+        _, inner, chain = nest(case["depth"])
         f = inner.define_function("f", [tys.Qubit], declared)
     else:
         f = Function("f", [tys.Qubit])
         if declared is not None:
             f.declare_outputs(declared)
-    exc = catch(lambda: f.set_outputs(*make_row(f, case["given"])))
+    cms = pick_ctx(case, chain + [f])                     # bit 0: `with f:` (the Function builder)
+    exc = catch(lambda: in_ctx(cms, lambda: f.set_outputs(*make_row(f, case["given"]))))
     return {"exc": exc, "declared": None if declared is None else [tid(T, t) for t in case["declared"]],
-            "given": [tid(T, t) for t in case["given"]]}
+            "given": [tid(T, t) for t in case["given"]], "nctx": len(cms)}
 
 
 def obs_call(case, T):
@@ -478,8 +587,10 @@ def obs_call(case, T):
     body = tys.FunctionType([tys.Bool], [tys.Bool])
     caller = m.define_function("main", [tys.Bool], [tys.Bool])
     inner = caller
+    chain = [caller]
     for _ in range(case["depth"]):
         inner = inner.add_nested(inner.inputs()[0])
+        chain.append(inner)
     tgt = case["target"]
     if tgt == "defn":
         f = m.define_function("f", [tys.Bool], [tys.Bool], type_params=params)
@@ -498,18 +609,19 @@ def obs_call(case, T):
     targs = None if case["nt"] is None else [tys.Bool.type_arg()] * case["nt"]
     arg = inner.inputs()[0]
     before = len(m.hugr)
+    cms = pick_ctx(case, chain)                           # bit 0: the builder the call is made in
     if case["via"] == "call":
-        exc = catch(lambda: inner.call(node, arg, instantiation=inst, type_args=targs))
+        exc = catch(lambda: in_ctx(cms, lambda: inner.call(node, arg, instantiation=inst, type_args=targs)))
     elif case["via"] == "load_function":
-        exc = catch(lambda: inner.load_function(node, instantiation=inst, type_args=targs))
+        exc = catch(lambda: in_ctx(cms, lambda: inner.load_function(node, instantiation=inst, type_args=targs)))
     elif case["via"] == "op_call":
-        exc = catch(lambda: ops.Call(tys.PolyFuncType(params, body), inst, targs))
+        exc = catch(lambda: in_ctx(cms, lambda: ops.Call(tys.PolyFuncType(params, body), inst, targs)))
     else:
-        exc = catch(lambda: ops.LoadFunc(tys.PolyFuncType(params, body), inst, targs))
+        exc = catch(lambda: in_ctx(cms, lambda: ops.LoadFunc(tys.PolyFuncType(params, body), inst, targs)))
     if case["via"].startswith("op_"):
         k = "KFunction"
     return {"exc": exc, "k": k, "np": np_ if k == "KFunction" else 0, "inst": bool(case["inst"]),
-            "nt": case["nt"] or 0, "grew": len(m.hugr) - before}
+            "nt": case["nt"] or 0, "grew": len(m.hugr) - before, "nctx": len(cms)}
 
 
 def obs_plainadd(case, T):
@@ -518,10 +630,11 @@ def obs_plainadd(case, T):
     from hugr.build.cfg import Cfg
     from hugr.build.cond_loop import Conditional, TailLoop
     kind = case["builder"]
+    chain = []
     if kind == "dfg":
         b = Dfg(tys.Qubit, tys.Qubit)
     elif kind == "nested":
-        _, b, _ = nest(case["depth"])
+        _, b, chain = nest(case["depth"])
         b = b.add_nested(b.inputs()[0], b.inputs()[0])
     elif kind == "function":
         b = Function("f", [tys.Qubit, tys.Qubit])
@@ -534,14 +647,15 @@ def obs_plainadd(case, T):
     args = [a if is_int(a) else b.inputs()[a[1] % 2] for a in case["args"]]
     before = len(b.hugr)
     op = custom(len(args), [tys.Qubit] * case["nout"])
+    cms = pick_ctx(case, chain + [b])                     # bit 0: `with b:`; never the half-built Conditional / Cfg
     if case["via"] == "extend":
-        exc = catch(lambda: b.extend(op(*args)))
+        exc = catch(lambda: in_ctx(cms, lambda: b.extend(op(*args))))
     else:
-        exc = catch(lambda: b.add(op(*args)))
+        exc = catch(lambda: in_ctx(cms, lambda: b.add(op(*args))))
     grew = len(b.hugr) > before
     diag = {("plain add: refused with the HUGR unchanged" if exc is not None else
              "plain add: accepted and the HUGR grew"): grew == (exc is None)}
-    return {"exc": exc, "grew": grew, "diag": diag}
+    return {"exc": exc, "grew": grew, "diag": diag, "nctx": len(cms)}
 
 
 def obs_tidx(case, T):
@@ -557,21 +671,22 @@ def obs_tidx(case, T):
     table = [None if w is None else [names.get(w.out_port().node.idx, 9), w.out_port().offset] for w in d.tracked]
     before = (len(d.hugr), list(d.tracked), len(list(d.hugr.links())))
     i, via = case["i"], case["via"]
+    cms = pick_ctx(case, [d])                             # bit 0: `with d:`
     if via == "tracked_wire":
-        exc = catch(lambda: d.tracked_wire(i))
+        exc = catch(lambda: in_ctx(cms, lambda: d.tracked_wire(i)))
     elif via == "untrack_wire":
-        exc = catch(lambda: d.untrack_wire(i))
+        exc = catch(lambda: in_ctx(cms, lambda: d.untrack_wire(i)))
     elif via == "add":
-        exc = catch(lambda: d.add(custom(2, [tys.Qubit, tys.Qubit])(d.inputs()[0], i)))
+        exc = catch(lambda: in_ctx(cms, lambda: d.add(custom(2, [tys.Qubit, tys.Qubit])(d.inputs()[0], i))))
     elif via == "extend":
-        exc = catch(lambda: d.extend(custom(1, [tys.Qubit])(i)))
+        exc = catch(lambda: in_ctx(cms, lambda: d.extend(custom(1, [tys.Qubit])(i))))
     else:
-        exc = catch(lambda: d.set_indexed_outputs(d.inputs()[0], i))
+        exc = catch(lambda: in_ctx(cms, lambda: d.set_indexed_outputs(d.inputs()[0], i)))
     after = (len(d.hugr), list(d.tracked), len(list(d.hugr.links())))
     diag = {}
     if exc is not None:
         diag["tracked index: refused with HUGR and tracked list unchanged"] = before == after
-    return {"exc": exc, "table": table, "changed": before != after, "diag": diag}
+    return {"exc": exc, "table": table, "changed": before != after, "diag": diag, "nctx": len(cms)}
 
 
 def obs_serialise(case, T):
@@ -641,8 +756,9 @@ def obs_serialise(case, T):
     for b in reversed(chain):
         b.set_outputs(*b.inputs())
         nodes.append([True])
-    exc = catch(lambda: h.to_json())
-    return {"exc": exc, "nodes": nodes}
+    cms = pick_ctx(case, chain)                           # serialising from inside the builders' `with` blocks
+    exc = catch(lambda: in_ctx(cms, lambda: h.to_json()))
+    return {"exc": exc, "nodes": nodes, "nctx": len(cms)}
 
 
 OBSERVERS = {"wire": lambda c, T: obs_wire(c), "cond": obs_cond, "ifelse": obs_ifelse, "exit": obs_exit,
@@ -805,9 +921,102 @@ def gen_serialise(rng):
     return {"kind": "serialise", "root": rng.choice(["dfg", "module"]), "depth": rng.randint(0, 3), "parts": parts}
 
 
+PLAIN_TYPES = ["Q", "B", "U"]       # no two of them are == : a differing row clearly disagrees
+
+
+def gen_cond_with(rng):
+    """Round 4: conditional sessions written the way the builders are meant to be used - inside `with` blocks.
+    Style A: one program `with cond: with cond.add_case(i) as c: c.set_outputs(row) ...` over all cases in a
+    random order, consistent or with ONE inconsistency (a disagreeing row at a random position / at the LAST
+    case, an index requested twice, an index out of range, a case left out), the Conditional standalone or
+    nested, the block sometimes split in two.  Style B: a gen_cond session whose calls are grouped into
+    `with` statements with random contexts."""
+    if rng.random() < 0.6:
+        n = rng.randint(1, 4)
+        variants = [rand_row(rng, maxlen=2) for _ in range(n)]
+        good = rand_row(rng, PLAIN_TYPES, 2)
+        bad = good
+        while bad == good:
+            bad = rand_row(rng, PLAIN_TYPES, 2)
+        order = list(range(n))
+        rng.shuffle(order)
+        body = []
+        for i in order:
+            if rng.random() < 0.7:
+                body.append(["with_case", i, list(good)])
+            else:
+                body.append(["add_case", i])
+                body.append(["set_outputs", 63, list(good)])        # 63 % len(cases): see fix-up below
+        # set_outputs of the split form addresses the case just handed out: index = number of cases so far - 1
+        k = 0
+        for b in body:
+            if b[0] in ("with_case", "add_case"):
+                k += 1
+            else:
+                b[1] = k - 1
+        fault = rng.choice(["none", "mismatch", "mismatch_last", "mismatch_last", "twice", "range", "missing"])
+        outs = [b for b in body if b[0] in ("with_case", "set_outputs")]
+        if fault == "mismatch" and len(outs) > 1:
+            outs[rng.randrange(1, len(outs))][-1] = list(bad)
+        elif fault == "mismatch_last" and len(outs) > 1:
+            outs[-1][-1] = list(bad)
+        elif fault == "twice":
+            j = rng.randrange(len(body))
+            body.insert(rng.randint(j + 1, len(body)), ["add_case", body[j][1]] if body[j][0] != "set_outputs"
+                        else ["add_case", order[0]])
+        elif fault == "range":
+            body.insert(rng.randint(0, len(body)), ["add_case", rng.choice([-n - 1, -1, n, n + 1, n + 5])])
+        elif fault == "missing":
+            j = rng.randrange(len(body))
+            if body[j][0] == "add_case":
+                del body[j:j + 2]
+            elif body[j][0] == "with_case":
+                del body[j]
+        depth = rng.randint(-1, 3)
+        ctx = rng.choice([["cond"], ["cond"], ["cond"], ["outer", "cond"], ["cond", "outer"], ["outer"], []])
+        if rng.random() < 0.25 and len(body) > 1:
+            cut = rng.randint(1, len(body) - 1)
+            ops_ = [["with", list(ctx), body[:cut]], ["with", list(ctx), body[cut:]]]
+        else:
+            ops_ = [["with", ctx, body]]
+        if rng.random() < 0.3:
+            ops_.append(rng.choice([["exit"], ["with", ["cond"], []], ["add_case", rng.randrange(n)]]))
+        return {"kind": "cond", "depth": depth, "variants": variants, "others": rand_row(rng, maxlen=2), "ops": ops_}
+    case = gen_cond(rng)
+    ifelse = case["kind"] == "ifelse"
+    ops_, out = case["ops"], []
+    i = 0
+    while i < len(ops_):
+        if rng.random() < 0.55:
+            m = rng.randint(1, 3)
+            names = ["if", "outer", ["case", rng.randrange(4)]] if ifelse else ["cond", "cond", "outer", ["case", rng.randrange(4)]]
+            ctx = [nm for nm in names if rng.random() < 0.5]
+            rng.shuffle(ctx)
+            body = [o for o in ops_[i:i + m] if not (ifelse and o[0] == "exit")]
+            out.append(["with", ctx, body])
+            i += m
+        else:
+            out.append(ops_[i])
+            i += 1
+    if rng.random() < 0.3:
+        out.append(["with", ["if"] if ifelse else ["cond"], []])
+    case["ops"] = out
+    return case
+
+
+def gen_ctx(rng):
+    """Round 4: a call of any other class made inside `with` blocks of its enclosing builders."""
+    g = rng.choice([gen_wire, gen_wire, gen_wire, gen_wire2, gen_exit, gen_fnout, gen_call, gen_plainadd, gen_tidx,
+                    gen_serialise])
+    case = g(rng)
+    case["ctx"] = rng.choice([1, 1, 3, 3, 255, rng.randrange(1, 256)])
+    return case
+
+
 GENS = [(gen_wire, 8), (gen_cond, 4), (gen_exit, 2), (gen_fnout, 2), (gen_call, 3), (gen_plainadd, 2),
         (gen_tidx, 2), (gen_serialise, 2),
-        (gen_wire2, 4)]          # appended last: the streams of the generators above are unchanged
+        (gen_wire2, 4),          # appended last: the streams of the generators above are unchanged
+        (gen_cond_with, 4), (gen_ctx, 4)]      # round 4, appended after them for the same reason
 
 
 class C13(fw.Prop):
@@ -823,6 +1032,9 @@ class C13(fw.Prop):
             "random position and nesting depth, over random rows from a pool with ==-equal spellings.  "
             "wire sources include the root node's own output port and the output ports of containers with an "
             "established signature (DFG, CFG, Conditional, TailLoop, block control port).  "
+            "builders are also used as context managers: conditional sessions whose calls run uncaught inside "
+            "`with cond:` / `with case:` / `with dfg:` blocks (whole programs over all cases with one inconsistency "
+            "at a random position), and calls of every other class inside `with` blocks of their enclosing builders.  "
             "non-trivial = the call is refused, or it is an accepted inter-graph / inter-block wire, or a "
             "session with >= 2 accepted calls")
     trusted = ["the interpreter of case descriptions (harness/props/c13.py) and its knowledge of which kind of "
@@ -830,7 +1042,10 @@ class C13(fw.Prop):
                "hierarchy read back as hugr[n].parent, nodes named canonically (rank by depth, index); types "
                "interned by Python == together with their spelling",
                "exception classes are compared by name (first class of the MRO the property knows)",
-               "which refusals hugr-py documents a class for (C13Run.documented)"]
+               "which refusals hugr-py documents a class for (C13Run.documented)",
+               "`with` blocks are real Python `with` statements on the builders (in_ctx); of a body only the calls "
+               "that actually ran are presented; `with cond.add_case(i) as c: c.set_outputs(r)` is presented as the "
+               "two calls in sequence (the Case context is transparent in the model)"]
     assumptions = ["the wire's target is the operation of the target builder, recorded or not by a refusal"]
 
     def __init__(self):
@@ -876,6 +1091,40 @@ class C13(fw.Prop):
             {"kind": "wire", "root": "dfg", "steps": [["nested", 0], ["nested", 1], ["close", 2], ["nested", 0]], "tgt": 3, "src": 0, "srcsel": "cont", "via": "add_op"},
             {"kind": "wire", "root": "cfg", "steps": [["close", 0]], "tgt": 1, "src": 0, "srcsel": "cont", "via": "add_op"},
             {"kind": "wire", "root": "dfg", "steps": [["cfg", 0, 0], ["exitcfg", 0], ["cfg", 0, 1]], "tgt": 3, "src": 1, "srcsel": "cont", "via": "add_op"},
+            # seeded round 4 (C13-g): builders as context managers - an error raised inside `with` blocks must reach
+            # the caller.  Both cases requested inside `with cond:`, the last one's outputs disagree (standalone /
+            # nested in a Dfg, also `with dfg: with cond:`); the same with the calls written out; a case requested
+            # twice / out of range once all are built; a block that leaves a case unbuilt; the consistent block
+            {"kind": "cond", "depth": -1, "variants": [[], []], "others": [],
+             "ops": [["with", ["cond"], [["with_case", 0, ["B"]], ["with_case", 1, ["U"]]]]]},
+            {"kind": "cond", "depth": 0, "variants": [[], []], "others": ["U"],
+             "ops": [["with", ["outer", "cond"], [["with_case", 1, ["B"]], ["with_case", 0, ["U"]]]]]},
+            {"kind": "cond", "depth": 1, "variants": [["B"], []], "others": [],
+             "ops": [["add_case", 0], ["add_case", 1], ["set_outputs", 0, ["Q"]], ["with", ["cond", ["case", 1]], [["set_outputs", 1, []]]]]},
+            {"kind": "cond", "depth": -1, "variants": [[]], "others": [],
+             "ops": [["with", ["cond"], [["with_case", 0, []], ["add_case", 0]]]]},
+            {"kind": "cond", "depth": -1, "variants": [[], []], "others": [],
+             "ops": [["with", ["cond"], [["with_case", 0, []], ["with_case", 1, []], ["add_case", 2]]]]},
+            {"kind": "cond", "depth": 0, "variants": [[], []], "others": [],
+             "ops": [["with", ["cond"], [["with_case", 0, ["B"]]]]]},
+            {"kind": "cond", "depth": 2, "variants": [[], ["Q"], []], "others": ["B"],
+             "ops": [["with", ["cond"], [["with_case", 2, ["B"]], ["with_case", 0, ["B"]], ["with_case", 1, ["B"]]]],
+                     ["with", ["cond"], []]]},
+            {"kind": "ifelse", "depth": 1, "ops": [["with", ["outer", "if"], [["set_outputs", 0, ["Q"]], ["with_else", ["B"]]]]]},
+            {"kind": "ifelse", "depth": 0, "ops": [["add_else"], ["with", [["case", 1]], [["add_else"]]]]},
+            # a refused call of every other class inside `with` blocks of its enclosing builders: a wire without
+            # relation made in a case inside `with cond: with case:` (all cases requested) and in a block inside
+            # `with cfg: with block:`; exit mismatch inside `with cfg:`; declared outputs inside `with f:`; ...
+            {"kind": "wire", "root": "dfg", "steps": [["cond", 0, 2], ["nested", 0], ["op", 3, 1, False]], "tgt": 2, "src": 4, "via": "add_op", "ctx": 3},
+            {"kind": "wire", "root": "dfg", "steps": [["cfg", 0, 1], ["nested", 0], ["op", 3, 1, False]], "tgt": 1, "src": 4, "via": "add_op", "ctx": 3},
+            {"kind": "wire", "root": "dfg", "steps": [["nested", 0], ["op", 1, 1, False], ["nested", 0]], "tgt": 2, "src": 2, "via": "add_op", "ctx": 255},
+            {"kind": "exit", "depth": 0, "ctx": 1, "blocks": [{"variants": [["B"]], "others": [], "branch": 0, "via": "branch_exit"},
+                                                              {"variants": [["Q"]], "others": [], "branch": 0, "via": "branch"}]},
+            {"kind": "fnout", "declared": ["B"], "given": ["Q"], "how": "define", "depth": 0, "ctx": 1},
+            {"kind": "call", "target": "defn", "np": 1, "inst": False, "nt": None, "depth": 1, "via": "call", "ctx": 3},
+            {"kind": "plainadd", "builder": "loop", "depth": 0, "args": [[0, 0], 0], "nout": 1, "via": "add", "ctx": 1},
+            {"kind": "tidx", "nin": 2, "track": True, "pre": [], "i": 5, "via": "add", "ctx": 1},
+            {"kind": "serialise", "root": "dfg", "depth": 1, "parts": [{"what": "cfg", "finish": False}], "ctx": 3},
         ]
 
     def generate(self, rng, tier, ctx):
@@ -890,6 +1139,11 @@ class C13(fw.Prop):
         return OBSERVERS[case["kind"]](case, self.T)
 
     def literal(self, case, o, ctx):
+        lit = self.literal0(case, o, ctx)
+        n = o.get("nctx", 0)
+        return gapp("KIn", gnat(n), lit) if n else lit
+
+    def literal0(self, case, o, ctx):
         k = case["kind"]
         grow = lambda r: glist(gN(x) for x in r)
         if k == "wire":
@@ -947,6 +1201,13 @@ class C13(fw.Prop):
             ops_ = case["ops"]
             for i in range(len(ops_)):
                 yield {**case, "ops": ops_[:i] + ops_[i + 1:]}
+            for i, o in enumerate(ops_):
+                if o[0] != "with":
+                    continue
+                for j in range(len(o[2])):                       # drop one call of a body
+                    yield {**case, "ops": ops_[:i] + [["with", o[1], o[2][:j] + o[2][j + 1:]]] + ops_[i + 1:]}
+                for j in range(len(o[1])):                       # drop one context
+                    yield {**case, "ops": ops_[:i] + [["with", o[1][:j] + o[1][j + 1:], o[2]]] + ops_[i + 1:]}
             if case["depth"] > 0:
                 yield {**case, "depth": case["depth"] - 1}
         elif k == "exit":
@@ -965,6 +1226,10 @@ class C13(fw.Prop):
                 yield {**case, "pre": p[:i] + p[i + 1:]}
         elif k in ("fnout", "call", "plainadd") and case.get("depth", 0) > 0:
             yield {**case, "depth": case["depth"] - 1}
+        m = case.get("ctx", 0)
+        for j in range(8):                                       # fewer `with` blocks around the call
+            if (m >> j) & 1:
+                yield {**case, "ctx": m & ~(1 << j)}
 
     def neighbours(self, case, rng):
         out = list(self.shrink(case))
@@ -974,6 +1239,10 @@ class C13(fw.Prop):
             for s in range(0, 256, 3):
                 for t in range(0, 16):
                     out.append({**case, "src": s, "tgt": t})
+        if case["kind"] in ("cond", "ifelse") and any(o[0] == "with" for o in case["ops"]):
+            out.extend(gen_cond_with(rng) for _ in range(600))
+        if case.get("ctx"):
+            out.extend({**gen(rng), "ctx": case["ctx"]} for _ in range(300))
         out.extend(gen(rng) for _ in range(600))
         return out
 
@@ -985,6 +1254,14 @@ class C13(fw.Prop):
             e["n"] += 1
             for x in (o["res"] if "res" in o else [o["exc"]]):
                 e["classes"][str(x)] = e["classes"].get(str(x), 0) + 1
+            if o.get("nctx"):
+                ic = d.setdefault("calls inside `with` blocks of enclosing builders (KIn)", {})
+                key = "%s:depth%d:%s" % (k, o["nctx"], "refused" if any(x is not None for x in (o["res"] if "res" in o else [o["exc"]])) else "accepted")
+                ic[key] = ic.get(key, 0) + 1
+            for ck, cx in o.get("blocks", []):
+                wb = d.setdefault("`with` statements of conditional sessions (contexts:what reached the caller)", {})
+                key = "%s:%s" % (ck, cx)
+                wb[key] = wb.get(key, 0) + 1
             for dk, dv in o.get("diag", {}).items():
                 df = d.setdefault("diagnostic only, no verdict (model drift): " + dk, {})
                 df[str(dv)] = df.get(str(dv), 0) + 1
